@@ -54,7 +54,106 @@ var digestField = map[promql.DigestWhat]int{
 	promql.DigestCardinality: 4, promql.DigestCardinalitySec: 4, promql.DigestCardinalityRaw: 4,
 	promql.DigestP0_1: 5, promql.DigestP1: 5, promql.DigestP5: 5, promql.DigestP10: 5, promql.DigestP25: 5, promql.DigestP50: 5,
 	promql.DigestP75: 5, promql.DigestP90: 5, promql.DigestP95: 5, promql.DigestP99: 5, promql.DigestP999: 5,
+	promql.DigestUnique: 6, promql.DigestUniqueSec: 6, promql.DigestUniqueRaw: 6, // field 6 = 0: the stub rows carry an empty unique sketch
 }
+
+// fieldVal: the stored value a column of field f must show
+func fieldVal(row *api.VerifRow, f int) float64 {
+	if f >= len(row.Fields) {
+		return 0
+	}
+	return row.Fields[f]
+}
+
+// ---------------------------------------------------------------- reference grouping of the requested functions
+// (independent of getHandlerWhat): the request sorted by function code; a storage query takes the following functions
+// while it has fewer than 7 selectors, a function whose selector differs from the last one takes a new slot.
+
+func selKey(d int) string { return api.VerifSelector(d) }
+
+func refGroup(whats []int) (sorted []int, sel [][]int, qry []string) {
+	sorted = append([]int(nil), whats...)
+	sort.Ints(sorted)
+	var slots []string
+	flush := func() {
+		for len(slots) < 7 {
+			slots = append(slots, "0:0")
+		}
+		qry = append(qry, strings.Join(slots, ","))
+	}
+	n := 0
+	for _, d := range sorted {
+		if len(sel) == 0 || n >= 7 {
+			if len(sel) > 0 {
+				flush()
+			}
+			sel = append(sel, []int{d})
+			slots = []string{selKey(d)}
+			n = 1
+			continue
+		}
+		if selKey(d) != slots[n-1] {
+			slots = append(slots, selKey(d))
+			n++
+		}
+		sel[len(sel)-1] = append(sel[len(sel)-1], d)
+	}
+	if len(sel) > 0 {
+		flush()
+	}
+	return sorted, sel, qry
+}
+
+func groupsStr(gs [][]int) string {
+	if len(gs) == 0 {
+		return "-"
+	}
+	return selStr(gs)
+}
+
+// opWhats: one `whats` op = the REAL getHandlerWhat on a function list, observed and checked against the property:
+// nothing dropped, order kept, one column per requested function
+func opWhats(h *verifx.H, whats []int, fields []int) {
+	h.Op("whats %s f=%s", verifx.List(whats), verifx.List(fields))
+	defer func() {
+		if p := recover(); p != nil {
+			h.Obs("panic")
+			h.Viol("handlerwhat-panic", "getHandlerWhat(%v) panicked: %v", whats, p)
+		}
+	}()
+	sorted, sel, qry := api.VerifHandlerWhatFull(whats)
+	q := "-"
+	if len(qry) > 0 {
+		q = strings.Join(qry, "/")
+	}
+	h.Obs("hw sorted=%s sel=%s qry=%s", verifx.List(sorted), groupsStr(sel), q)
+	h.Stat("whats.calls", 1)
+	want := append([]int(nil), whats...)
+	sort.Ints(want)
+	var flat []int
+	for _, g := range sel {
+		flat = append(flat, g...)
+	}
+	if fmt.Sprint(sorted) != fmt.Sprint(want) {
+		h.Viol("handlerwhat-request-changed", "getHandlerWhat(%v) leaves the request as %v", whats, sorted)
+	}
+	if fmt.Sprint(flat) != fmt.Sprint(want) {
+		h.Viol("column-count-mismatch", "getHandlerWhat(%v) groups the functions as %s: %d columns for %d requested functions", whats, groupsStr(sel), len(flat), len(whats))
+	}
+	shares := false
+	for i := 1; i < len(want); i++ {
+		if selKey(want[i]) == selKey(want[i-1]) {
+			shares = true
+		}
+	}
+	if shares {
+		h.Stat("whats.shared-selector", 1)
+	}
+	if len(sel) > 1 {
+		h.Stat("whats.multi-query", 1)
+	}
+}
+
 
 var allDigests []promql.DigestWhat
 
@@ -81,7 +180,8 @@ type scenario struct {
 	fromEnd  bool
 	limit    int
 	whats    []int
-	sel      [][]int // per handler-what: field per column
+	sel      [][]int // per storage query (reference grouping): field per column
+	qry      []string // per storage query (reference grouping): its selectors
 	from, to api.RowMarker
 	lods     []api.VerifLOD
 	store    [][]cell // [q][k]
@@ -91,6 +191,21 @@ type scenario struct {
 	sorted     bool // groups ascending by time slot, rows inside a group sorted in the requested direction
 	wide       bool // tag values over the whole int64 range
 	clean      bool // unique keys per answer, non-by tags zero, skey empty unless grouped by it, rows inside their LOD
+}
+
+// setWhats: the requested functions and their reference grouping into storage queries
+func (sc *scenario) setWhats(whats []int) {
+	sc.whats = whats
+	sc.sel, sc.qry = nil, nil
+	_, sel, qry := refGroup(whats)
+	for _, g := range sel {
+		var fs []int
+		for _, d := range g {
+			fs = append(fs, digestField[promql.DigestWhat(d)])
+		}
+		sc.sel = append(sc.sel, fs)
+	}
+	sc.qry = qry
 }
 
 func tagsStr(t []int64) string { return verifx.List(t) }
@@ -261,7 +376,24 @@ func genScenario(r *verifx.Rng, h *verifx.H) *scenario {
 	sc.wide = r.Chance(1, 4)
 	// whats
 	var ds []promql.DigestWhat
-	if r.Chance(3, 5) {
+	if r.Chance(1, 4) {
+		// runs of functions that share a storage selector, and duplicates
+		fams := [][]promql.DigestWhat{
+			{promql.DigestCount, promql.DigestCountSec, promql.DigestCountRaw},
+			{promql.DigestSum, promql.DigestSumSec, promql.DigestSumRaw},
+			{promql.DigestCardinality, promql.DigestCardinalitySec, promql.DigestCardinalityRaw},
+			{promql.DigestUnique, promql.DigestUniqueSec, promql.DigestUniqueRaw},
+			{promql.DigestMin}, {promql.DigestMax}, {promql.DigestP50}, {promql.DigestP99},
+		}
+		nf := r.Range(1, 5)
+		for i := 0; i < nf; i++ {
+			f := fams[r.Intn(len(fams))]
+			k := r.Range(1, len(f))
+			for j := 0; j < k; j++ {
+				ds = append(ds, f[r.Intn(len(f))])
+			}
+		}
+	} else if r.Chance(3, 5) {
 		n := r.Range(1, 3)
 		for i := 0; i < n; i++ {
 			ds = append(ds, allDigests[r.Intn(len(allDigests))])
@@ -290,13 +422,7 @@ func genScenario(r *verifx.Rng, h *verifx.H) *scenario {
 	for _, d := range ds {
 		sc.whats = append(sc.whats, int(d))
 	}
-	for _, g := range api.VerifHandlerWhat(sc.whats) {
-		var fs []int
-		for _, d := range g {
-			fs = append(fs, digestField[promql.DigestWhat(d)])
-		}
-		sc.sel = append(sc.sel, fs)
-	}
+	sc.setWhats(sc.whats)
 	nq := len(sc.sel)
 	// LODs: contiguous, step 1
 	nl := 1 + r.Pick(5, 4, 2)
@@ -530,8 +656,9 @@ func fixedScenario(i int) *scenario {
 	mk := func(t int64, tag0 int64) api.RowMarker {
 		return api.RowMarker{Time: t, Tags: []api.RawTag{{Index: 0, Value: tag0}}}
 	}
-	sc := &scenario{by: []int{0}, limit: 10, whats: []int{int(promql.DigestCountRaw)}, sel: [][]int{{0}}, consistent: true, sorted: true, clean: true,
+	sc := &scenario{by: []int{0}, limit: 10, consistent: true, sorted: true, clean: true,
 		lods: []api.VerifLOD{{From: 10, To: 11, Step: 1}}}
+	sc.setWhats([]int{int(promql.DigestCountRaw)})
 	switch i {
 	case 0: // F9a: both markers inside one time group
 		sc.from, sc.to = mk(10, 3), mk(10, 7)
@@ -564,14 +691,7 @@ func fixedScenario(i int) *scenario {
 	case 4: // the row-marker witness of Props/C25 (reqAlias): first answer tags 1 and 3, second answer only tag 2
 		sc.whats = []int{int(promql.DigestCountRaw), int(promql.DigestSumRaw), int(promql.DigestMin), int(promql.DigestMax), int(promql.DigestCardinalityRaw),
 			int(promql.DigestP50), int(promql.DigestP90), int(promql.DigestP99)}
-		sc.sel = nil
-		for _, g := range api.VerifHandlerWhat(sc.whats) {
-			var fs []int
-			for _, d := range g {
-				fs = append(fs, digestField[promql.DigestWhat(d)])
-			}
-			sc.sel = append(sc.sel, fs)
-		}
+		sc.setWhats(sc.whats)
 		sc.consistent = false
 		sc.store = [][]cell{{{groups: [][]api.VerifRow{{row(10, 1), row(10, 3)}}}}, {{groups: [][]api.VerifRow{{row(10, 2)}}}}}
 	default:
@@ -614,6 +734,7 @@ func dataStr(d []float64) string {
 }
 
 var errStub = errors.New("stub storage error")
+var errUnknownQry = errors.New("stub storage: unknown query")
 
 func runScenario(h *verifx.H, sc *scenario) {
 	nq, nl := len(sc.sel), len(sc.lods)
@@ -625,7 +746,58 @@ func runScenario(h *verifx.H, sc *scenario) {
 	if sc.bySk {
 		bs = 1
 	}
+	// ---- getHandlerWhat on function lists of every kind (grouping only), then on the request of this case
+	{
+		r := verifx.NewRng(uint64(sc.limit)*0x9E3779B97F4A7C15 + uint64(len(sc.whats))*15485863 + uint64(len(sc.lods))*32452843 + 777)
+		h.Op("seltab")
+		tab := make([]string, 30)
+		for d := range tab {
+			tab[d] = api.VerifSelector(d)
+		}
+		h.Obs("seltab %s", strings.Join(tab, " "))
+		for n := r.Range(1, 2); n > 0; n-- {
+			var ws []int
+			switch r.Intn(4) {
+			case 0: // any codes, also the unspecified one and an unknown one
+				for k := r.Range(0, 12); k > 0; k-- {
+					ws = append(ws, r.Intn(30))
+				}
+			case 1: // a few families, several members each
+				for k := r.Range(1, 4); k > 0; k-- {
+					base := []int{1, 4, 21, 23, 26}[r.Intn(5)]
+					for j := r.Range(1, 4); j > 0; j-- {
+						ws = append(ws, base+r.Intn(3))
+					}
+				}
+			case 2: // many percentiles: more than 7 selectors, with families in between
+				for d := 10; d <= 20; d++ {
+					if r.Chance(3, 4) {
+						ws = append(ws, d)
+					}
+				}
+				for k := r.Range(0, 6); k > 0; k-- {
+					ws = append(ws, 1+r.Intn(9))
+				}
+			default: // every function once
+				for d := 1; d <= 28; d++ {
+					ws = append(ws, d)
+				}
+			}
+			for i := len(ws) - 1; i > 0; i-- {
+				j := r.Intn(i + 1)
+				ws[i], ws[j] = ws[j], ws[i]
+			}
+			opWhats(h, ws, make([]int, len(ws)))
+		}
+	}
 	h.Op("cfg nt=%d by=%s bysk=%d fe=%d lim=%d sel=%s", NT, verifx.List(sc.by), bs, fe, sc.limit, selStr(sc.sel))
+	{
+		fs := make([]int, len(sc.whats))
+		for i, d := range sc.whats {
+			fs[i] = digestField[promql.DigestWhat(d)]
+		}
+		opWhats(h, sc.whats, fs)
+	}
 	h.Op("from %s", markerStr(sc.from))
 	h.Op("to %s", markerStr(sc.to))
 	for _, l := range sc.lods {
@@ -745,8 +917,19 @@ func runScenario(h *verifx.H, sc *scenario) {
 		}
 	}()
 	visited := map[[2]int]bool{}
+	unknownQry := ""
 	req := api.VerifTableReq{From: sc.from, To: sc.to, FromEnd: sc.fromEnd, Limit: sc.limit, By: byStrings(sc), Whats: sc.whats, NTags: NT, LODs: sc.lods,
-		Store: func(q, k int) ([][]api.VerifRow, error) {
+		Store: func(qry string, k int) ([][]api.VerifRow, error) {
+			q := -1
+			for i, key := range sc.qry {
+				if key == qry {
+					q = i
+				}
+			}
+			if q < 0 {
+				unknownQry = qry
+				return nil, errUnknownQry
+			}
 			visited[[2]int{q, k}] = true
 			if sc.store[q][k].err {
 				return nil, errStub
@@ -755,6 +938,11 @@ func runScenario(h *verifx.H, sc *scenario) {
 		}}
 	out, more, err := api.VerifGetTable(req)
 	if err != nil {
+		if errors.Is(err, errUnknownQry) {
+			h.Obs("err-other unknown storage query")
+			h.Viol("storage-query-unexpected", "getTableFromLODs asked the storage for selectors %s, the requested functions %v need %v", unknownQry, sc.whats, sc.qry)
+			return
+		}
 		if !errors.Is(err, errStub) {
 			h.Obs("err-other %v", err)
 			return
@@ -795,13 +983,18 @@ func runScenario(h *verifx.H, sc *scenario) {
 	}
 
 	// ---------------- direct oracle on the real result
-	ncols := 0
+	// column c of every row is function c of the request (as the response lists it: sorted by function code); the
+	// storage query that serves it comes from the reference grouping
+	ncols := len(sc.whats)
 	colQ, colF := []int{}, []int{}
-	for q, g := range sc.sel {
-		ncols += len(g)
-		for _, f := range g {
-			colQ, colF = append(colQ, q), append(colF, f)
+	sortedWhats, refSel, _ := refGroup(sc.whats)
+	for q, g := range refSel {
+		for range g {
+			colQ = append(colQ, q)
 		}
+	}
+	for _, d := range sortedWhats {
+		colF = append(colF, digestField[promql.DigestWhat(d)])
 	}
 	// storage index per handler-what (all LODs), and duplicate detection
 	type ent struct {
@@ -832,7 +1025,7 @@ func runScenario(h *verifx.H, sc *scenario) {
 		// (1) one column per requested function, missing values are NaN
 		if !dup {
 			if len(out[i].Data) != ncols {
-				h.Viol("table-columns", "row %s has %d columns for %d requested functions (handler-whats %s)", ks, len(out[i].Data), ncols, selStr(sc.sel))
+				h.Viol("column-count-mismatch", "row %s has %d columns for %d requested functions %v (storage queries %s)", ks, len(out[i].Data), ncols, sortedWhats, selStr(sc.sel))
 			} else {
 				for c, v := range out[i].Data {
 					e := idxQ[colQ[c]][ks]
@@ -840,9 +1033,9 @@ func runScenario(h *verifx.H, sc *scenario) {
 					case math.IsNaN(v):
 						padded = true
 					case e == nil:
-						h.Viol("table-value", "row %s column %d shows %v but storage has no such row for that function", ks, c, v)
-					case e.row.Fields[colF[c]] != v:
-						h.Viol("table-value", "row %s column %d shows %v, storage has %v", ks, c, v, e.row.Fields[colF[c]])
+						h.Viol("column-function-misaligned", "row %s column %d (function %d) shows %v but storage has no such row for that function", ks, c, sortedWhats[c], v)
+					case fieldVal(e.row, colF[c]) != v:
+						h.Viol("column-function-misaligned", "row %s column %d (function %d) shows %v, storage has %v for it", ks, c, sortedWhats[c], v, fieldVal(e.row, colF[c]))
 					}
 				}
 			}
